@@ -24,11 +24,12 @@ void h_##NAME##_owned(void) { IN(i32, x0); IN(i32, nv); VASSUME(SMALL(x0) && SMA
   VASSERT(out[0] == x0 && out[1] == x0 + 1 && out[2] == x0 + 2 && out[3] == x0 + 3, "a wrapper built from a temporary owns the value: it stays valid after the temporary is gone"); \
   VASSERT(out[4] == nv && out[5] == nv && out[6] == nv + 1 && out[7] == 1 && out[8] == 1, "owning wrappers are independent copies; & designates the owned object"); \
   VASSERT(g_copy[2] == 0 && g_copy[3] == 0, "ownership is established by construction, not assignment"); HARNESS_END(); } \
-void h_##NAME##_optional(void) { IN(i32, x0); IN(u8, f0); IN(i32, nv); VASSUME(SMALL(x0) && SMALL(nv) && f0 < 2); i64 out[8]; for (int i = 0; i < 8; i++) out[i] = -7; reset(); \
+void h_##NAME##_optional(void) { IN(i32, x0); IN(u8, f0); IN(i32, nv); VASSUME(SMALL(x0) && SMALL(nv) && f0 < 2); i64 out[10]; for (int i = 0; i < 10; i++) out[i] = -7; reset(); \
   w_##NAME##_optional(x0, f0, nv, (u64*)out); \
   VASSERT(out[0] == 1 && out[1] == 1 && out[4] == 1 && out[7] == 1, "optional(x, flag) from lvalues designates both originals (also through the rvalue accessor and for a const source)"); \
   VASSERT(out[2] == nv && out[3] == !f0, "writes through optional(x, flag) reach x and flag"); \
-  VASSERT(out[5] == x0 + 5 && out[6] == 1, "optional(T(..), true) from temporaries owns value and flag"); HARNESS_END(); }
+  VASSERT(out[5] == x0 + 5 && out[6] == 1, "optional(T(..), true) from temporaries owns value and flag"); \
+  VASSERT(out[8] == nv && out[9] == nv, "assigning a temporary reference-closure optional to an owning one copies the referent and leaves it intact (the referent is not moved from)"); HARNESS_END(); }
 BOTH(i)
 BOTH(c)
 void h_complex_ref(void) {
